@@ -30,7 +30,7 @@ RTOL = 1e-5
 def gen_cases(tier, seed):
     rng = np.random.default_rng(seed + 51)
     cases = []
-    nrand = 2 if tier == "quick" else 10
+    nrand = 2 if tier == "quick" else 40
     for fam in zoo.ALL_FAMS:
         cfgs = zoo.configs([fam], tier, seed + 17, nrand)
         for ci, cfg in enumerate(cfgs):
@@ -46,7 +46,7 @@ def gen_cases(tier, seed):
                 c2 = dict(cfg, cache=True)
                 cases.append(dict(cases[-1], cfg=c2, mode="eval", inputs_only=True))
                 cases.append(dict(cases[-1], cfg=c2, mode="eval", pre="inverse_first", inputs_only=True))
-    for i in range(30 if tier == "quick" else 250):
+    for i in range(30 if tier == "quick" else 800):
         cfg = dzoo.sample_flow_cfg(rng)
         if "parts" in cfg:
             cfg["parts"] = [_smooth(p) for p in cfg["parts"]]
